@@ -2,13 +2,14 @@
 C03 driver: model side of the chunking correspondence.
 case: {"body": hex, "filters": [..], "headers": [[n,v]..], "scheds": [[cuts]..]}
 out:  {"m": {"one": hex of run [b], "sch": ["=" | hex of run (split b cuts) ..]}, "tags": [..]}
-For a chain that consists of one html stage the hypothesis of Rio.C03.chunk_invariant_partial (`safeRunB`) is evaluated
-on every schedule: tags "sem-safe" / "sem-unsafe" (coverage of the theorem), and a schedule that is safe but differs
-from the single-chunk run would contradict the theorem — reported as a driver error, never silently.
+For every uncompressed chain the hypotheses of Rio.C03.chain_chunk_invariant_partial (`safeGB` on the schedule and on the
+single chunk, no failing call) are evaluated on every schedule: tags "sem-safe" / "sem-unsafe" (coverage of the
+theorem), and a schedule that is safe but differs from the single-chunk run would contradict the theorem — reported as
+a driver error, never silently.
 -/
 import Drivers.Common
 import RioModel.Model.FilterJson
-import RioModel.Proofs.FilterTotal
+import RioModel.Proofs.FilterPipe
 open Lean Rio.Filter
 
 def handle (j : Json) : Except String Json := do
@@ -23,14 +24,20 @@ def handle (j : Json) : Except String Json := do
   let outs := scheds.map fun cuts => run (splitAt body cuts)
   let sch := outs.map fun out => if out == one then toJson "=" else toJson (J.hex out)
   let mut tags : Array Json := #[]
-  match chain.items with
-  | [.html s] =>
-    let flags := scheds.map fun cuts => safeRunB htmlTokenize evalStandIn s (splitAt body cuts)
+  -- the hypotheses of Rio.C03.chain_chunk_invariant_partial, evaluated on the tokenizer model
+  let plain := chain.items.all fun st => st.kind == "html" || st.kind == "text"
+  if plain && !chain.items.isEmpty then
+    let safe1 := safeGB htmlTokenize evalStandIn noCodec chain.items [body] none
+    let ok1 := (runG htmlTokenize evalStandIn noCodec chain.items [body] none).isSome
+    let flags := scheds.map fun cuts =>
+      let cs := splitAt body cuts
+      safe1 && ok1 && safeGB htmlTokenize evalStandIn noCodec chain.items cs none &&
+        (runG htmlTokenize evalStandIn noCodec chain.items cs none).isSome
     if flags.any id then tags := tags.push (toJson "sem-safe")
     if flags.any (!·) then tags := tags.push (toJson "sem-unsafe")
+    if chain.items.length > 1 && flags.any id then tags := tags.push (toJson "sem-safe-multistage")
     for (f, out) in flags.zip outs do
-      if f && out != one then throw "a schedule satisfying SafeRun differs from the single-chunk run (contradicts chunk_invariant_partial)"
-  | _ => pure ()
+      if f && out != one then throw "a schedule satisfying SafeG differs from the single-chunk run (contradicts chain_chunk_invariant_partial)"
   return Json.mkObj [("m", Json.mkObj [("one", toJson (J.hex one)), ("sch", Json.arr sch.toArray)]), ("tags", Json.arr tags)]
 
 def main : IO Unit := Drv.run handle
